@@ -105,7 +105,22 @@ def run(ctx):
         b"diff --git a/f b/f\nold mode 100644\nnew mode 100755\n",
         b"diff --git a/f b/f\nnew file mode 100644\nindex 0000000..e69de29\n",
     ]
+    def long_hunk(nr, na, lead=1, trail=1, equal_at=None):
+        # one hunk that replaces nr lines by na lines with no line in common (seeded C12-j: the writer's search for the
+        # next common line gave up after 64 lines on each side); equal_at = (i, j): old line i and new line j are equal
+        old = [b"old line %d" % i for i in range(nr)]
+        new = [b"new line %d" % i for i in range(na)]
+        if equal_at:
+            new[equal_at[1]] = old[equal_at[0]]
+        body = b"".join(b" ctx %d\n" % i for i in range(lead)) + b"".join(b"-" + l + b"\n" for l in old) + \
+            b"".join(b"+" + l + b"\n" for l in new) + b"".join(b" end %d\n" % i for i in range(trail))
+        return b"--- a/f\n+++ b/f\n@@ -1,%d +1,%d @@\n" % (lead + nr + trail, lead + na + trail) + body
+    corpus += [long_hunk(70, 70), long_hunk(66, 130, 0, 2), long_hunk(200, 65, 3, 0), long_hunk(100, 100, 1, 1, (80, 90)),
+               long_hunk(70, 70, 1, 1, (66, 3))]
     cases = {"corpus": [{"data": d} for d in corpus],
+             "long-replacements": [{"data": long_hunk(rng.randint(1, 140), rng.randint(1, 140), rng.randint(0, 3), rng.randint(0, 3),
+                                                      (rng.randrange(1), rng.randrange(1)) if rng.random() < 0.0 else None)}
+                                   for _ in range(40 * k)],
              "grammar": [{"data": l2gen.gen_patch(rng)} for _ in range(3500 * k)],
              "line-soup": [{"data": l2gen.gen_soup(rng)} for _ in range(1500 * k)],
              "mutated-fixtures": [{"data": l2gen.mutate(rng, rng.choice(l2gen.fixtures()))} for _ in range(1000 * k)],
